@@ -3,7 +3,7 @@
 manifest is always schema-valid and in step with what the driver implements)."""
 import json, subprocess
 
-HOOK_COMMITS = ["ff49be5"]
+HOOK_COMMITS = ["ff49be5", "b69ae2b"]
 FIX_COMMITS = ["20bf16f", "aefc590", "f10f830", "24ec5ad", "9659f5f", "7e5c136", "f869cf2", "0e309c1", "9424101", "82caa03", "fadb2b4", "29dde06", "b3d3332", "5ee6f39"]
 
 NA = {
